@@ -140,6 +140,9 @@ func c02Child(ctx *runCtx, spec string) {
 		return
 	}
 	defer c.Shutdown()
+	defer func() {
+		ctx.rep.Count("restabilisations_accepted_with_differing_backup_owner_lists", atomic.LoadInt64(&cluster.LooseStable))
+	}()
 	rng := rand.New(rand.NewSource(cs.Seed))
 	w := &c02World{c: c, dmap: "c02", log: map[string]*c02Key{}}
 	for i := 0; i < 60; i++ {
@@ -209,6 +212,34 @@ func c02Child(ctx *runCtx, spec string) {
 	case cs.Instant == "idle":
 		atomic.StoreInt32(&w.faultBegan, 1)
 		stopAll()
+	case cs.Instant == "sequential":
+		// the members stop one after the other; after each stop the cluster re-stabilises and the hand-over
+		// (routing push, balancer passes) runs to completion before the next member stops
+		atomic.StoreInt32(&w.faultBegan, 1)
+		for n, i := range cs.Stop {
+			m := c.Members[i]
+			if cs.Mode == "graceful" {
+				c.StopGraceful(m)
+			} else {
+				c.StopAbrupt(m)
+			}
+			if err := c.WaitStable(60 * time.Second); err != nil {
+				ctx.rep.Inconclusive(spec + ": " + err.Error())
+				return
+			}
+			for round := 0; round < 30; round++ {
+				for _, l := range c.Live() {
+					l.V.Balancer.BalanceEagerly()
+				}
+				c.PushRouting()
+			}
+			if err := c.WaitStable(30 * time.Second); err != nil {
+				ctx.rep.Inconclusive(spec + ": " + err.Error())
+				return
+			}
+			ctx.rep.Count("sequential_stops_with_full_handover_in_between", 1)
+			_ = n
+		}
 	case cs.Instant == "between":
 		// a workload keeps running on the survivors while the members stop
 		stopWl := make(chan struct{})
@@ -473,10 +504,18 @@ func c02Cases(tier string, seed int64) []c02Case {
 		}
 		add(c02Case{N: 4, R: 3, P: 7, Stop: []int{0, 2}, Mode: "abrupt", Instant: "between", RR: true})
 		add(c02Case{N: 4, R: 3, P: 7, Stop: []int{1, 3}, Mode: "graceful", Instant: "idle", Balance: true})
+		// no spare member: the promoted members keep what they have; two failures one after the other
+		add(c02Case{N: 3, R: 3, P: 7, Stop: []int{2, 0}, Mode: "graceful", Instant: "sequential"})
+		add(c02Case{N: 3, R: 3, P: 23, Stop: []int{1, 2}, Mode: "abrupt", Instant: "sequential", Balance: true})
+		add(c02Case{N: 3, R: 3, P: 7, Stop: []int{2}, Mode: "graceful", Instant: "idle", Balance: true})
+		add(c02Case{N: 4, R: 3, P: 23, Stop: []int{3, 0}, Mode: "abrupt", Instant: "sequential", RR: true})
 		return cs
 	}
 	for _, n := range []int{3, 4, 5} {
 		for _, r := range []int{2, 3} {
+			if r > n {
+				continue
+			}
 			// subsets of at most r-1 members; member 0 is the coordinator
 			var subsets [][]int
 			for a := 0; a < n; a++ {
@@ -492,6 +531,10 @@ func c02Cases(tier string, seed int64) []c02Case {
 					for ii, inst := range []string{"idle", "between"} {
 						add(c02Case{N: n, R: r, P: []uint64{7, 23}[(si+mi)%2], Stop: st, Mode: mode, Instant: inst, RR: (si+ii)%2 == 0, Balance: (si+mi+ii)%2 == 0})
 					}
+				}
+				if r == 3 && len(st) == 2 {
+					add(c02Case{N: n, R: r, P: []uint64{7, 23}[si%2], Stop: st, Mode: []string{"graceful", "abrupt"}[si%2], Instant: "sequential", RR: si%3 == 0, Balance: si%2 == 0})
+					add(c02Case{N: n, R: r, P: []uint64{23, 7}[si%2], Stop: []int{st[1], st[0]}, Mode: []string{"abrupt", "graceful"}[si%2], Instant: "sequential", RR: si%3 == 1, Balance: si%2 == 1})
 				}
 				if len(st) == 1 && st[0] < 3 {
 					for k, p := range duringPoints {
